@@ -37,7 +37,7 @@ fn main() {
             let mut progs: Vec<Prog> = gen_table::gen_table();
             progs.extend(hand_table::corpus());
             progs.extend(hand_table::keyed_plain());
-            c28::run_c28(&mut rep, &progs);
+            c28::run_c28(&mut rep, &progs, &hand_table::keyed());
         }
         "C29" => {
             let mut ordered: Vec<Prog> = gen_table::gen_table().into_iter().filter(|p| p.out == model::OutKind::Seq).collect();
